@@ -96,6 +96,15 @@ func init() {
 				res.Stalled++
 				continue
 			}
+			// the frame the reset node now holds (and would serve to others) still is the frame of the anchor block
+			if held, err := inst.N.Store.GetFrame(blk.RoundReceived()); err == nil {
+				hh, _ := held.Hash()
+				if string(hh) != string(blk.FrameHash()) {
+					res.Viol = append(res.Viol, ev.Violation{Property: "C13", Key: "dag-reset:held-frame-differs",
+						What:   fmt.Sprintf("%s: after the reset to block %d the frame the node holds for round %d no longer hashes to the block's frame hash (it could not serve another node)", it.Source, commits[k].Body.Index, blk.RoundReceived()),
+						Replay: map[string]interface{}{"dag": it.Source, "anchor": commits[k].Body.Index}})
+				}
+			}
 			stalled := false
 			for i := range evs {
 				if _, err := inst.N.Store.GetEvent(evs[i].Hex); err == nil {
